@@ -464,3 +464,68 @@ class C05(Base):
             for b in range(4):
                 out.append(Case("o.q.roundtrip", unit_quat_pivot(rng, b), family=f"oracle-branch-{b}"))
         return out
+
+
+def dec3(rng, scale=None):
+    """Decomposed<Vector3, R> with an exactly unit rotation quaternion: scale, quat(4), disp(3)"""
+    s = scale if scale is not None else rng.choice([F(1), F(-2), F(3, 7), rng.rat_nz(), F(-5, 3)])
+    return [s] + rng.unit_quat() + rng.distinct(3)
+
+
+def dec2(rng, scale=None):
+    s = scale if scale is not None else rng.choice([F(1), F(-2), F(3, 7), rng.rat_nz(), F(-5, 3)])
+    return [s, rng.small()] + rng.distinct(2)
+
+
+@prop("C08")
+class C08(Base):
+    title = "transforms compose, invert and convert to matrices consistently"
+    design_ref = "§6 C08"
+    _dec = ["one", "id", "transform_vector", "transform_point", "concat", "mul", "concat_self",
+            "inverse_transform", "inverse_transform_vector", "to_matrix"]
+    ops = ["{}.{}".format(t, o) for t in ("dq", "db3", "db2") for o in
+           ("one", "id", "transform_vector", "transform_point", "concat", "mul", "concat_self",
+            "inverse_transform", "inverse_transform_vector", "to_matrix")] + [
+        "m3.transform_vector2", "m3.transform_point2", "m3.transform_vector", "m3.transform_point",
+        "m4.transform_vector", "m4.transform_point", "m3.concat2", "m3.concat", "m4.concat",
+        "m3.concat_self2", "m4.concat_self", "m3.inverse_transform2", "m3.inverse_transform",
+        "m4.inverse_transform", "m3.inverse_transform_vector2", "m3.inverse_transform_vector",
+        "m4.inverse_transform_vector"]
+    oracle_ops = ["o.dq.laws", "o.dq.inverse", "o.db3.laws", "o.db3.inverse", "o.db2.laws", "o.db2.inverse",
+                  "o.dq.matrix", "o.db2.matrix", "o.m4.transform", "o.m3.transform"]
+
+    def families(self, rng, tier):
+        out = []
+        reps = 6 if tier == "quick" else 200
+        scales = [F(0), F(1, 2 ** 60), F(-1, 2 ** 60), F(-3), F(1), F(1, 1000001), F(1, 999999)]
+        for _ in range(reps):
+            for t, mk, nv in (("dq", dec3, 3), ("db3", dec3, 3), ("db2", dec2, 2)):
+                for sc in scales:
+                    d = mk(rng, sc)
+                    out.append(Case(f"{t}.inverse_transform", d, family="scale-boundary"))
+                    out.append(Case(f"{t}.inverse_transform_vector", d + rng.distinct(nv), family="scale-boundary"))
+                a, b = mk(rng), mk(rng)
+                out.append(Case(f"{t}.concat", a + b, family="valid-rotation"))
+                out.append(Case(f"{t}.concat", b + a, family="valid-rotation"))
+                out.append(Case(f"{t}.transform_point", a + rng.distinct(nv), family="valid-rotation"))
+                out.append(Case(f"{t}.to_matrix", a, family="valid-rotation"))
+                out.append(Case(f"{t}.inverse_transform", a, family="valid-rotation"))
+        # singular Basis3 rotation (zero quaternion => matrix = identity is fine; use non-unit q with singular matrix)
+        # q = (s,x,y,z) with s^2 = x^2+y^2+z^2 = 1/2 gives a rank-deficient matrix? keep a zero-determinant case:
+        out.append(Case("db3.inverse_transform", [F(1), F(0), F(1), F(1), F(0), F(1), F(2), F(3)], family="singular-rot"))
+        return out
+
+    def oracle_cases(self, rng, tier):
+        out = []
+        k = 20 if tier == "quick" else 1000
+        scales = [F(0), F(1, 2 ** 60), F(-3), F(1), F(1, 999999), F(7, 2)]
+        for _ in range(k):
+            for t, mk, nv in (("dq", dec3, 3), ("db3", dec3, 3), ("db2", dec2, 2)):
+                out.append(Case(f"o.{t}.laws", mk(rng) + mk(rng) + rng.distinct(nv) + rng.distinct(nv), family="oracle"))
+                out.append(Case(f"o.{t}.inverse", mk(rng, rng.choice(scales)) + rng.distinct(nv) + rng.distinct(nv), family="oracle"))
+            out.append(Case("o.dq.matrix", dec3(rng) + dec3(rng) + rng.distinct(3) + rng.distinct(3), family="oracle"))
+            out.append(Case("o.db2.matrix", dec2(rng) + dec2(rng) + rng.distinct(2) + rng.distinct(2), family="oracle"))
+            out.append(Case("o.m4.transform", [rng.small() for _ in range(24)] + rng.distinct(3) + rng.distinct(3), family="oracle"))
+            out.append(Case("o.m4.transform", singular_mat(rng, 3) + [rng.small() for _ in range(15)] + rng.distinct(3) + rng.distinct(3), family="oracle-singular"))
+            out.append(Case("o.m3.transform", rand_mat(rng, 3, "small") + rand_mat(rng, 3, "small") + rng.distinct(3) + rng.distinct(3), family="oracle"))
+        return out
